@@ -40,7 +40,7 @@ ASSUMPTIONS = ['delayafterclose / delayafterterminate lowered to 20 ms (configur
                'wait() is issued only when /proc shows the child exiting or the disposition guarantees it',
                '/proc/<pid>/stat start time identifies our child (no pid-reuse confusion)']
 REQUIRED = ['sequences', 'operations', 'invariant_I1', 'invariant_I2', 'invariant_I3', 'invariant_I4', 'invariant_I5',
-            'enumerated_sequences', 'fd_sequences', 'socket_sequences', 'invariant_I6_signal_ops_after_reaping']
+            'enumerated_sequences', 'fd_sequences', 'socket_sequences', 'socket_close_with_failing_shutdown', 'invariant_I6_signal_ops_after_reaping']
 
 PTY_OPS = ['isalive', 'wait', 'kill0', 'killTERM', 'killCONT', 'terminate', 'terminateF', 'closeNF', 'close', 'sendeof',
            'expect_eof', 'send', 'read', 'with_exc', 'del']
@@ -375,6 +375,30 @@ def pty_sequence(case, acc):
 FD_OPS = ['isalive', 'close', 'send', 'read', 'expect_eof', 'with_exc', 'del', 'peer_close', 'peer_write']
 
 
+class FaultySocket(object):
+    """A socket whose shutdown() raises ENOTCONN while `armed` - what shutdown() of a connection the peer has reset
+    does - and which is the real socket otherwise."""
+
+    def __init__(self, sock):
+        self.__dict__['_s'] = sock
+        self.__dict__['armed'] = False
+
+    def __getattr__(self, name):
+        return getattr(self._s, name)
+
+    def __setattr__(self, name, value):
+        if name == 'armed':
+            self.__dict__['armed'] = value
+        else:
+            setattr(self._s, name, value)
+
+    def shutdown(self, how):
+        if self.armed:
+            import errno
+            raise OSError(errno.ENOTCONN, 'Transport endpoint is not connected')
+        return self._s.shutdown(how)
+
+
 def fd_sequence(case, acc):
     tr, seq = case['tr'], case['seq']
     base = nfds()
@@ -386,6 +410,8 @@ def fd_sequence(case, acc):
     else:
         s2 = a.dup()
         fdnum = s2.fileno()
+        if 'close_fault' in seq:
+            s2 = FaultySocket(s2)
         c = socket_pexpect.SocketSpawn(s2, timeout=2)
     if case.get('deadlog'):
         acc.count('sequences_with_closed_log_files')
@@ -406,6 +432,18 @@ def fd_sequence(case, acc):
                 if op == 'isalive':
                     ret = c.isalive()
                 elif op == 'close':
+                    ret = c.close()
+                elif op == 'close_fault':
+                    # a close() whose shutdown() fails once (what a connection reset by the peer does): the error is an
+                    # honest answer; the close() that follows is judged like any other (added after seeded round ten)
+                    if tr == 'socket' and isinstance(c.socket, FaultySocket):
+                        c.socket.armed = True
+                        try:
+                            c.close()
+                        except OSError:
+                            acc.count('socket_close_with_failing_shutdown')
+                        c.socket.armed = False
+                    op = 'close'
                     ret = c.close()
                 elif op == 'send':
                     ret = c.send(b'x')
@@ -541,6 +579,10 @@ def plan(tier, seed):
         cases.append({'kind': 'fd', 'tr': ['fd', 'socket'][i % 2], 'deadlog': 1 + i % 3,
                       'seq': [rng.choice(['isalive', 'close', 'with_exc', 'del', 'peer_close']) for _ in range(rng.randint(1, 4))],
                       'enum': False})
+    for i in range(24 if tier == 'quick' else 400):
+        cases.append({'kind': 'fd', 'tr': 'socket', 'enum': False,
+                      'seq': [rng.choice(['isalive', 'send', 'read', 'peer_close', 'peer_write']) for _ in range(rng.randint(0, 2))] +
+                             ['close_fault'] + [rng.choice(['isalive', 'close', 'with_exc', 'del']) for _ in range(rng.randint(0, 2))]})
     for tr in ('fd', 'socket'):
         for d in range(1, 4 if tier == 'quick' else 5):
             for s in itertools.product(FD_OPS, repeat=d):
